@@ -17,6 +17,15 @@ C14 line-protocol driver.
       ops = L:<key> | S:<key>=<blob>      blob = k<id> | c<pub>/<signer>
     key ids are renamed in order of first appearance in the answer.
 
+  fs <ev>;<ev>;…        start-ups of the PKI app on the real certmagic.FileStorage (a directory), each
+                        in its own process, oldest first
+      ev    = <life>:<fault>      life as above; fault = - | K<k> | F<k>: the process is killed before /
+                                  the call fails (EIO) at the k-th FILE operation of this start-up
+                                  (a read of a key file counts as one, a Store is six + clean-up)
+    answer: per event  `<res> [<ops>] {rc=…,rk=…,ic=…,ik=…;tmp=<leftover temp files>}`  joined by ` ; `
+      ops = rd:<key> | t+ | ch | w:<blob> | sy | cl | mv:<key> | rm
+      tmp = the temp files left in the directory, each e (empty) | p (torn) | w (whole), sorted
+
   as <ev>;<ev>;…        a history of config loads and process restarts on one autosave directory
       ev    = R | U | L<n>:<flags>:<fault>
               (U = restart with `--resume`: the new process loads, with forceReload, whatever the
@@ -30,6 +39,7 @@ C14 line-protocol driver.
       content = - (absent) | e (empty) | <n><flags> (exactly that config) | ~ (anything else)
 -/
 import CaddyModel.C14.Model
+import CaddyModel.C14.FileStore
 
 namespace CaddyModel.C14
 
@@ -159,6 +169,41 @@ def handleCA (hist : String) : String :=
   | some evs => render (sepBy (.s " ; ") (caToks codeOrder evs World.empty)) [] ""
   | none => "bad-op"
 
+/-! ### the CA on FileStorage -/
+
+def dopToks : DOp → List Tok
+  | .read k => [.s ("rd:" ++ keyName k)]
+  | .creatTemp _ => [.s "t+"]
+  | .chmod _ => [.s "ch"]
+  | .write _ b => .s "w:" :: blobToks b
+  | .sync _ => [.s "sy"]
+  | .close _ => [.s "cl"]
+  | .rename _ k => [.s ("mv:" ++ keyName k)]
+  | .remove _ => [.s "rm"]
+  | .writeKey k b => .s ("wk:" ++ keyName k ++ "=") :: blobToks b
+  | .truncKey k => [.s ("tk:" ++ keyName k)]
+
+def contentKind : FContent → String
+  | .empty => "e" | .part _ _ => "p" | .whole _ => "w"
+
+/-- kinds of the temp files left, in sorted order (e < p < w) -/
+def tmpKinds (d : Dir) : String :=
+  let ks := (List.range d.nextTmp).filterMap fun n => (d.tmps n).map contentKind
+  ",".intercalate (ks.filter (· == "e") ++ ks.filter (· == "p") ++ ks.filter (· == "w"))
+
+def fresToks : FRes Mem → List Tok
+  | .ok m _ => [.s "ok(r="] ++ blobToks m.root.crt ++ [.s ",i="] ++ blobToks m.inter.crt ++ [.s ",k="] ++ blobToks m.inter.key ++ [.s ")"]
+  | .err e _ => [.s ("err:" ++ errName e)]
+  | .crash _ => [.s "crash"]
+
+def fsEventToks (r : FRes Mem) : List Tok :=
+  fresToks r ++ [.s " ["] ++ sepBy (.s ",") (r.sys.log.map dopToks) ++ [.s "] {"] ++ storeToks (view r.sys.dir)
+    ++ [.s (";tmp=" ++ tmpKinds r.sys.dir ++ "}")]
+
+def fsToks (ord : Order) : List FEvent → FDisk → List (List Tok)
+  | [], _ => []
+  | e :: es, d => fsEventToks (e.run ord d) :: fsToks ord es (e.after ord d)
+
 /-! ### autosave -/
 
 structure ASpec where
@@ -281,8 +326,29 @@ def handleAS (hist : String) : String :=
     if oneFaultPerLife evs 0 then " ".intercalate (asOut codeStyle evs ⟨none, ⟨none, none⟩⟩) else "bad-op"
   | none => "bad-op"
 
+def parseFSEvent (now : Nat) (s : String) : Option FEvent :=
+  match s.splitOn ":" with
+  | [life, fault] =>
+    match (if life == "s" then some 0 else if life == "l" then some longLife else none), parseFFault fault with
+    | some lf, some ft => some ⟨⟨now, lf⟩, ft⟩
+    | _, _ => none
+  | _ => none
+
+def parseFSEvents : List String → Nat → Option (List FEvent)
+  | [], _ => some []
+  | s :: ss, now => do
+    let e ← parseFSEvent now s
+    let es ← parseFSEvents ss (now + 1)
+    pure (e :: es)
+
+def handleFS (hist : String) : String :=
+  match parseFSEvents (hist.splitOn ";") 1 with
+  | some evs => render (sepBy (.s " ; ") (fsToks codeOrder evs FDisk.empty)) [] ""
+  | none => "bad-op"
+
 def handle : List String → String
   | ["ca", hist] => handleCA hist
+  | ["fs", hist] => handleFS hist
   | ["as", hist] => handleAS hist
   | _ => "bad-op"
 
